@@ -483,7 +483,15 @@ impl GlobalState {
             loop {
                 tokio::time::sleep(Duration::from_secs(1)).await;
                 let mut list = Default::default();
-                std::mem::swap(self.gc_list.lock().unwrap().deref_mut(), &mut list);
+                {
+                    let mut gc_list = self.gc_list.lock().unwrap();
+                    std::mem::swap(gc_list.deref_mut(), &mut list);
+                    // emitted while the list is locked: how many of the contexts dropped so far this pass takes
+                    #[cfg(redproxy_verif)]
+                    if !list.is_empty() {
+                        crate::vtrace::emit("gc_take", serde_json::json!({"n": list.len()}));
+                    }
+                }
                 if !list.is_empty() {
                     trace!("context gc: {}", list.len());
                     #[cfg(feature = "metrics")]
@@ -761,7 +769,9 @@ impl ContextRefOps for ContextRef {
 impl Drop for Context {
     fn drop(&mut self) {
         trace!("Context dropped: {}", self);
-        self.state.gc_list.lock().unwrap().push(self.props.clone());
+        let mut gc_list = self.state.gc_list.lock().unwrap();
+        gc_list.push(self.props.clone());
+        // emitted while the list is locked: the order of the drop events is the order of the list
         #[cfg(redproxy_verif)]
         crate::vtrace::emit(
             "drop",
@@ -769,6 +779,7 @@ impl Drop for Context {
                                "c_bytes": self.props.client_stat.read_bytes.load(Ordering::Relaxed),
                                "s_bytes": self.props.server_stat.read_bytes.load(Ordering::Relaxed)}),
         );
+        drop(gc_list);
     }
 }
 
